@@ -111,20 +111,26 @@ Definition observe (l : list action) : val :=
                              | _ => [] end) l);
       vbool (existsb is_disc l)].
 
-Definition run (inp : val) : option val :=
+(* the frame class and the "tree with the fixes" flag *)
+Definition dec_frame (inp : val) : option (frame * bool) :=
   match inp with
   | VL [VZ q; VB [ty]; em; rt; rd; VL vs; hd; w0; w1; w2; cx; sp; go; fx] =>
       match dec_bool em, dec_route rt, dec_read rd, verdict_fun vs, dec_handler hd with
       | Some em', Some rt', Some rd', Some vf, Some hd' =>
           match dec_w w0, dec_w w1, dec_w w2, dec_bool cx, dec_bool sp, dec_bool go, dec_bool fx with
           | Some a, Some b, Some c, Some cx', Some sp', Some go', Some fx' =>
-              let f := mkFrame q ty em' rt' rd' vf hd' a b c cx' sp' go' in
-              Some (observe (if fx' then dispatch_now f else dispatch_prefix f))
+              Some (mkFrame q ty em' rt' rd' vf hd' a b c cx' sp' go', fx')
           | _, _, _, _, _, _, _ => None
           end
       | _, _, _, _, _ => None
       end
   | _ => None
+  end.
+
+Definition run (inp : val) : option val :=
+  match dec_frame inp with
+  | Some (f, fx) => Some (observe (if fx then dispatch_now f else dispatch_prefix f))
+  | None => None
   end.
 
 Definition check_line := check_line_with run.
